@@ -21,15 +21,23 @@
   * `plot_select`, `plot_modes_draws_select`   n = 0, 1, 2 draw ω, γ, V∂γ/∂V (true of the code since /repo 17c4262, which repaired
                                    the n = 1 / n = 2 swap this check had found; `plot_select_not_swapped` states the repaired defect).
   * `hermite_raises`               the `hermite` method cannot return (negative result).
+  * `ppoly_*`, `pchip_*`, `power_law_exact_ppoly*`   pchip / akima: scipy's PchipInterpolator / Akima1DInterpolator are MODELLED (`CijModel/PPoly.lean`:
+                                   slope rules, Hermite pieces in PPoly's power basis, piece location with extrapolation) — the interpolant takes the node
+                                   values; `nu=1` is the derivative of `nu=0` everywhere (C¹, node slope from both sides), `nu=2` of `nu=1` off the interior
+                                   nodes; hence `triple_consistent`'s conclusion for the returned triple with NO contract assumption
+                                   (`ppoly_mode_consistent`); PCHIP slope sign/size (0 at a sign change, else common sign and ≤ 3·min|secant|; ends too) and
+                                   the Fritsch–Carlson consequence (monotone data ⇒ monotone interpolant on the node range); power laws reproduced exactly.
   * `mode_glue_is_source`          the triple pattern `(exp s, −s', −s'')` and the node preparation (thin / flip) of the model are the ones
                                    the translator extracts from `mode_gamma.py` on this run (Generated/ModeGammaSpec.lean).
 
-  PARTIAL (see the comments at the theorems): FITPACK / pchip / akima internals are a parameter (contract measured by the harness).
+  PARTIAL (see the comments at the theorems): FITPACK (`spline`) internals are a parameter (contract measured by the harness).
   Rank-deficient least squares (fewer than order+1 distinct volumes; numpy: minimum-norm solution) is outside the model.
 -/
 import CijProofs.Lemmas.Interp
 import CijProofs.Lemmas.ModeGammaSource
 import CijProofs.Lemmas.SolveTotal
+import CijProofs.Lemmas.PPoly
+import CijProofs.Lemmas.PPolySource
 import Mathlib.Analysis.SpecialFunctions.Log.Deriv
 import Mathlib.Analysis.SpecialFunctions.Pow.Real
 import Mathlib.Analysis.Calculus.Deriv.Polynomial
@@ -394,6 +402,259 @@ power law (two coefficients) -/
 example : (thin 2 ([3, 2, 1] : List ℝ)).length = 2 ∧ ([3, 2, 1] : List ℝ).Nodup ∧ ∀ V ∈ ([3, 2, 1] : List ℝ), 0 < V := by
   refine ⟨by decide, by norm_num, by norm_num⟩
 
+/-! #### node-based piecewise cubics: `pchip`, `akima` (scipy's classes modelled in `CijModel/PPoly.lean`) -/
+
+section PPolyField
+open Cij.PPoly
+variable {K : Type} [Field K] [LinearOrder K] [IsStrictOrderedRing K]
+
+/-- **(a) the interpolant takes the node values.**  On any strictly increasing nodes (≥ 2), for arbitrary values: whatever the node
+slopes, the `nu = 0` evaluation at node `x_i` is `y_i` (a query at an interior node is evaluated on the piece to its right, at the
+last node on the last piece — both give `y_i`); in particular `PchipInterpolator(x, y)(x) = y` and `Akima1DInterpolator(x, y)(x) = y`. -/
+theorem ppoly_interpolates_nodes (xs ys : List K) (h : xs.Pairwise (· < ·)) (hn : 2 ≤ xs.length) (hl : xs.length = ys.length) :
+    (∀ ds : List K, ∀ i, i < xs.length → evalAt xs ys ds 0 (xs.getD i 0) = some (ys.getD i 0)) ∧
+      (∃ r, pchipInterpolant xs ys xs = .ok r ∧ r.map (·.1) = ys) ∧
+      (∃ r, akimaInterpolant xs ys xs = .ok r ∧ r.map (·.1) = ys) :=
+  ⟨fun ds i hi => (evalAt_node xs ys ds h i hi hn).1, hermiteInterpolant_nodes _ xs ys h hn hl,
+    hermiteInterpolant_nodes _ xs ys h hn hl⟩
+
+/-- the constructor refuses exactly what scipy's `prepare_input` refuses (over an ordered field: fewer than two nodes, different
+lengths, abscissae not strictly increasing) with `ValueError`, and otherwise answers for every query list -/
+theorem ppoly_answers_iff (xs ys pts : List K) :
+    ((∃ r, pchipInterpolant xs ys pts = .ok r) ↔ 2 ≤ xs.length ∧ xs.length = ys.length ∧ xs.Pairwise (· < ·)) ∧
+      ((∃ r, akimaInterpolant xs ys pts = .ok r) ↔ 2 ≤ xs.length ∧ xs.length = ys.length ∧ xs.Pairwise (· < ·)) := by
+  have key : ∀ slopes : List K → List K → List K,
+      (∃ r, hermiteInterpolant slopes xs ys pts = .ok r) ↔ 2 ≤ xs.length ∧ xs.length = ys.length ∧ xs.Pairwise (· < ·) := by
+    intro slopes
+    rw [← validNodes_iff]
+    constructor
+    · rintro ⟨r, hr⟩
+      by_contra hv
+      simp [hermiteInterpolant, hv] at hr
+    · intro hv
+      obtain ⟨hn, -, hp⟩ := (validNodes_iff xs ys).mp hv
+      exact ⟨_, hermiteInterpolant_ok slopes xs ys pts hv
+        (fun q => ((evalAt xs ys (slopes xs ys) 0 q).getD 0, (evalAt xs ys (slopes xs ys) 1 q).getD 0,
+          (evalAt xs ys (slopes xs ys) 2 q).getD 0)) fun q => by
+        rw [sample, evalAt_isSome xs ys _ hp hn 0 q, evalAt_isSome xs ys _ hp hn 1 q, evalAt_isSome xs ys _ hp hn 2 q]
+        simp⟩
+  exact ⟨key _, key _⟩
+
+/-- **(c) PCHIP, interior node `k`** (secants `a = m_{k-1}`, `b = m_k` of the adjacent pieces): the slope is `0` when the secants have
+opposite signs or one vanishes; otherwise it has their common sign and `|d| ≤ 3·min(|a|, |b|)`. -/
+theorem pchip_interior_slope (xs ys : List K) (h : xs.Pairwise (· < ·)) (k : ℕ) (h0 : 0 < k) (hk : k + 1 < xs.length) :
+    (mAt xs ys (k - 1) * mAt xs ys k ≤ 0 → (pchipSlopes xs ys).getD k 0 = 0) ∧
+      (0 < mAt xs ys (k - 1) → 0 < mAt xs ys k → 0 < (pchipSlopes xs ys).getD k 0) ∧
+      (mAt xs ys (k - 1) < 0 → mAt xs ys k < 0 → (pchipSlopes xs ys).getD k 0 < 0) ∧
+      |(pchipSlopes xs ys).getD k 0| ≤ 3 * min |mAt xs ys (k - 1)| |mAt xs ys k| := by
+  rw [pchipSlopes_getD xs ys k (by omega), pchipSlopeAt_interior xs ys k h0 hk]
+  have hh0 := hAt_pos xs h (k - 1) (by omega)
+  have hh1 := hAt_pos xs h k hk
+  refine ⟨pchipInterior_zero _ _ _ _, fun a b => (pchipInterior_pos _ _ _ _ hh0 hh1 a b).1,
+    fun a b => (pchipInterior_neg _ _ _ _ hh0 hh1 a b).1, ?_⟩
+  obtain ⟨⟨-, b0⟩, ⟨-, b1⟩⟩ := pchipInterior_shape (hAt xs (k - 1)) (hAt xs k) (mAt xs ys (k - 1)) (mAt xs ys k) hh0 hh1
+  rcases le_total |mAt xs ys (k - 1)| |mAt xs ys k| with hle | hle
+  · rwa [min_eq_left hle]
+  · rwa [min_eq_right hle]
+
+/-- **(c) PCHIP, every node incl. both ends, every piece** `[x_i, x_{i+1}]` with secant `Δ_i`: both end slopes of the piece never
+oppose `Δ_i` and are at most `3|Δ_i|` in size (the Fritsch–Carlson box) — for all data, the `_edge_case` corrections included. -/
+theorem pchip_slopes_in_box (xs ys : List K) (h : xs.Pairwise (· < ·)) (i : ℕ) (hi : i + 2 ≤ xs.length) :
+    (0 ≤ (pchipSlopes xs ys).getD i 0 * mAt xs ys i ∧ |(pchipSlopes xs ys).getD i 0| ≤ 3 * |mAt xs ys i|) ∧
+      (0 ≤ (pchipSlopes xs ys).getD (i + 1) 0 * mAt xs ys i ∧ |(pchipSlopes xs ys).getD (i + 1) 0| ≤ 3 * |mAt xs ys i|) := by
+  rw [pchipSlopes_getD xs ys i (by omega), pchipSlopes_getD xs ys (i + 1) (by omega)]
+  exact pchipSlopeAt_shape xs ys h i hi
+
+/-- **(d) affine data** (`ln ω` affine in `ln V`: a power law) are reproduced exactly by both interpolators at EVERY query point —
+inside, at nodes, in both extrapolated regions: value `a q + b`, first derivative `a`, second derivative `0`. -/
+theorem ppoly_affine_exact (xs pts : List K) (h : xs.Pairwise (· < ·)) (hn : 2 ≤ xs.length) (a b : K) :
+    pchipInterpolant xs (xs.map fun x => a * x + b) pts = .ok (pts.map fun q => (a * q + b, a, 0)) ∧
+      akimaInterpolant xs (xs.map fun x => a * x + b) pts = .ok (pts.map fun q => (a * q + b, a, 0)) :=
+  ⟨hermiteInterpolant_affine _ xs pts h hn a b (pchipSlopes_affine xs h hn a b),
+    hermiteInterpolant_affine _ xs pts h hn a b (akimaSlopes_affine xs h hn a b)⟩
+
+/-- non-vacuity and a worked instance over ℚ (nodes 0,1,3,4,6; values 0,2,3,1,1: a secant sign change at x = 3, a flat last piece):
+PCHIP slopes — end rule 5/2, harmonic mean 6/7, then 0 at the sign change and at the flat piece; Akima slopes; the model refuses
+non-increasing abscissae -/
+example : pchipSlopes ([0, 1, 3, 4, 6] : List ℚ) [0, 2, 3, 1, 1] = [5 / 2, 6 / 7, 0, 0, 0] ∧
+    akimaSlopes ([0, 1, 3, 4, 6] : List ℚ) [0, 2, 3, 1, 1] = [11 / 4, 23 / 16, -4 / 7, -8 / 9, 1] ∧
+    pchipInterpolant ([0, 1, 3, 4, 6] : List ℚ) [0, 2, 3, 1, 1] [-1, 1 / 2, 3, 7]
+      = .ok [(-12 / 7, 2 / 7, 29 / 7), (135 / 112, 121 / 56, -23 / 14), (3, 0, -12), (1, 0, 0)] ∧
+    pchipInterpolant ([1, 2, 2] : List ℚ) [3, 5, 9] [0] = .error .valueError := by decide +kernel
+
+/-- Akima's fallback `t = ½(m[i+3] + m[i])` where both weights vanish (node 2: secants 1,1 to the left, 0,0 to the right → ½), and
+the 2-node special case of both classes (the secant at both nodes: a straight line) -/
+example : akimaSlopes ([0, 1, 2, 3, 4, 5] : List ℚ) [0, 1, 2, 2, 2, 2] = [1, 1, 1 / 2, 0, 0, 0] ∧
+    (List.range 6).map (akimaF12 ([0, 1, 2, 3, 4, 5] : List ℚ) [0, 1, 2, 2, 2, 2]) = [0, 1, 0, 1, 0, 0] ∧
+    pchipInterpolant ([1, 2] : List ℚ) [3, 5] [0, 3 / 2, 4] = .ok [(1, 2, 0), (4, 2, 0), (9, 2, 0)] ∧
+    akimaInterpolant ([1, 2, 4] : List ℚ) [3, 5, 9] [0, 3] = .ok [(1, 2, 0), (7, 2, 0)] := by decide +kernel
+
+/-- piece location: a query at an interior node belongs to the piece on its right, at the last node (and beyond) to the last piece,
+left of the first node to the first piece -/
+example : locate ([0, 1, 3, 4, 6] : List ℚ) 3 = some 2 ∧ locate ([0, 1, 3, 4, 6] : List ℚ) 6 = some 3 ∧
+    locate ([0, 1, 3, 4, 6] : List ℚ) 9 = some 3 ∧ locate ([0, 1, 3, 4, 6] : List ℚ) (-5) = some 0 := by decide +kernel
+
+end PPolyField
+
+section PPolyReal
+open Cij.PPoly
+
+/-- `triple_consistent`, pointwise: only differentiability AT `ln V` is needed -/
+theorem triple_consistent_at (s s' s'' : ℝ → ℝ) (V : ℝ) (hV : 0 < V) :
+    (HasDerivAt s (s' (Real.log V)) (Real.log V) →
+        HasDerivAt (fun v => Real.exp (s (Real.log v))) (-((-s' (Real.log V)) * Real.exp (s (Real.log V)) / V)) V) ∧
+      (HasDerivAt s' (s'' (Real.log V)) (Real.log V) →
+        HasDerivAt (fun v => -s' (Real.log v)) ((-s'' (Real.log V)) / V) V) := by
+  have hlog : HasDerivAt Real.log V⁻¹ V := Real.hasDerivAt_log hV.ne'
+  constructor
+  · intro hs
+    have h1 : HasDerivAt (fun v => s (Real.log v)) (s' (Real.log V) * V⁻¹) V := hs.comp V hlog
+    refine h1.exp.congr_deriv ?_
+    field_simp
+  · intro hs'
+    have h1 : HasDerivAt (fun v => s' (Real.log v)) (s'' (Real.log V) * V⁻¹) V := hs'.comp V hlog
+    refine h1.neg.congr_deriv ?_
+    field_simp
+
+/-- **(b) the derivative contract of the piecewise cubic, proved** (any node slopes `ds`, so for PCHIP and Akima alike; `spline … nu`
+is the function `interp(·, nu, extrapolate=True)` computes):
+1. the `nu = 1` evaluation is the derivative of the `nu = 0` evaluation at EVERY point — inside pieces, in both extrapolated
+   regions, and at the nodes (C¹);
+2. the `nu = 2` evaluation is the derivative of the `nu = 1` evaluation at every point that is not an interior node (strictly inside
+   a piece, both extrapolated regions, the two end nodes);
+3. at an interior node `x_{j+1}` the pieces on BOTH sides have first derivative `dydx[j+1]`, which is also the `nu = 1` evaluation
+   there, and the `nu = 1` function is continuous there. -/
+theorem ppoly_derivative_contract (xs ys ds : List ℝ) (h : xs.Pairwise (· < ·)) (hn : 2 ≤ xs.length) :
+    (∀ q, HasDerivAt (spline xs ys ds 0) (spline xs ys ds 1 q) q) ∧
+      (∀ q, (∀ j, j + 3 ≤ xs.length → q ≠ xs.getD (j + 1) 0) →
+        HasDerivAt (spline xs ys ds 1) (spline xs ys ds 2 q) q) ∧
+      (∀ j, j + 3 ≤ xs.length →
+        (pieceAt xs ys ds j).eval 1 (xs.getD (j + 1) 0) = ds.getD (j + 1) 0 ∧
+        (pieceAt xs ys ds (j + 1)).eval 1 (xs.getD (j + 1) 0) = ds.getD (j + 1) 0 ∧
+        spline xs ys ds 1 (xs.getD (j + 1) 0) = ds.getD (j + 1) 0 ∧
+        ContinuousAt (spline xs ys ds 1) (xs.getD (j + 1) 0)) := by
+  refine ⟨spline_hasDerivAt_everywhere xs ys ds h hn, fun q hq => (spline_hasDerivAt_offnode xs ys ds h hn q hq).2, fun j hj => ?_⟩
+  obtain ⟨a, b, -, c⟩ := spline_C1_at_node xs ys ds h j hj
+  exact ⟨a, b, (spline_node xs ys ds h (j + 1) (by omega) hn).2, c⟩
+
+/-- the glued function IS what the model's kernels return, for any query list -/
+theorem ppoly_kernel_is_spline (xs ys pts : List ℝ) (h : xs.Pairwise (· < ·)) (hn : 2 ≤ xs.length) (hl : xs.length = ys.length) :
+    pchipInterpolant xs ys pts = .ok (pts.map fun q =>
+        (spline xs ys (pchipSlopes xs ys) 0 q, spline xs ys (pchipSlopes xs ys) 1 q, spline xs ys (pchipSlopes xs ys) 2 q)) ∧
+      akimaInterpolant xs ys pts = .ok (pts.map fun q =>
+        (spline xs ys (akimaSlopes xs ys) 0 q, spline xs ys (akimaSlopes xs ys) 1 q, spline xs ys (akimaSlopes xs ys) 2 q)) :=
+  ⟨hermiteInterpolant_eq_spline _ xs ys pts h hn hl, hermiteInterpolant_eq_spline _ xs ys pts h hn hl⟩
+
+/-- **(b, consequence) `interpolate_mode_ppoly` returns a consistent triple — no contract assumption.**  For `pchip` and `akima`, any
+order ≥ 1, positive strictly decreasing sampled volumes (file order) of which the thinning keeps at least two, ARBITRARY frequencies and
+any grid: with `s = spline` on the nodes the code hands to scipy (thinned `[::ceil(nv/order)]`, flipped, logged),
+* the model returns exactly `(exp s(ln V), −s'(ln V), −s''(ln V))` on the grid;
+* at EVERY `V > 0`: `dω/dV = −γ ω / V`  (γ = −dlnω/dlnV: the second array belongs to the first);
+* at every `V > 0` whose `ln V` is not an interior node: `dγ/dV = g / V`  (g = V∂γ/∂V: the third array belongs to the second).
+These are the conclusions of `triple_consistent`; its hypotheses are now theorems (`ppoly_derivative_contract`). -/
+theorem ppoly_mode_consistent (m : Method) (hm : m = .pchip ∨ m = .akima) (order : ℕ) (ho : order ≠ 0) (lib : Interpolant ℝ)
+    (vols freqs vArray : List ℝ) (hpos : ∀ V ∈ vols, 0 < V) (hdec : vols.Pairwise (· > ·)) (hlen : vols.length = freqs.length)
+    (h2 : 2 ≤ (thin order vols).length) :
+    let xs := ((thin order vols).reverse).map Real.log
+    let ys := ((thin order freqs).reverse).map Real.log
+    let s := spline xs ys (ppolySlopes m xs ys)
+    interpolateMode m order (kernelFull m order lib) vols freqs vArray
+        = .ok (vArray.map fun v => (Real.exp (s 0 (Real.log v)), -s 1 (Real.log v), -s 2 (Real.log v))) ∧
+      ∀ V, 0 < V →
+        HasDerivAt (fun v => Real.exp (s 0 (Real.log v))) (-((-s 1 (Real.log V)) * Real.exp (s 0 (Real.log V)) / V)) V ∧
+        ((∀ j, j + 3 ≤ xs.length → Real.log V ≠ xs.getD (j + 1) 0) →
+          HasDerivAt (fun v => -s 1 (Real.log v)) ((-s 2 (Real.log V)) / V) V) := by
+  intro xs ys s
+  have hinc : xs.Pairwise (· < ·) := log_nodes_increasing order vols hpos hdec
+  have hn : 2 ≤ xs.length := by simpa [xs] using h2
+  have hl : xs.length = ys.length := by simpa [xs, ys] using thin_length_congr order vols freqs hlen
+  obtain ⟨c1, c2, -⟩ := ppoly_derivative_contract xs ys (ppolySlopes m xs ys) hinc hn
+  refine ⟨?_, fun V hV => ?_⟩
+  · have hk := ppoly_kernel_is_spline xs ys (vArray.map Real.log) hinc hn hl
+    have hfin : ∀ I : Interpolant ℝ, I xs ys (vArray.map Real.log) = .ok ((vArray.map Real.log).map fun q => (s 0 q, s 1 q, s 2 q)) →
+        finishMode I (thin order vols).reverse (thin order freqs).reverse vArray
+          = .ok (vArray.map fun v => (Real.exp (s 0 (Real.log v)), -s 1 (Real.log v), -s 2 (Real.log v))) :=
+      fun I hI => finishMode_eq I _ _ vArray (s 0) (s 1) (s 2) hI
+    rcases hm with rfl | rfl
+    · have := hfin pchipInterpolant (by simpa [s, ppolySlopes] using hk.1)
+      simpa [interpolateMode, modeNodes, kernelFull, ho, bind, Except.bind] using this
+    · have := hfin akimaInterpolant (by simpa [s, ppolySlopes] using hk.2)
+      simpa [interpolateMode, modeNodes, kernelFull, ho, bind, Except.bind] using this
+  · obtain ⟨t1, t2⟩ := triple_consistent_at (s 0) (s 1) (s 2) V hV
+    exact ⟨t1 (c1 _), fun hoff => t2 (c2 _ hoff)⟩
+
+/-- **(c) Fritsch–Carlson consequence for PCHIP.**  Monotone data give a monotone interpolant on the whole node range `[x_0, x_{n-1}]`:
+non-decreasing values ⇒ non-decreasing interpolant, non-increasing values (the usual case: ω falls as V grows, γ > 0) ⇒ non-increasing
+interpolant — so the interpolated γ never changes sign between the sampled volumes.  (Piece by piece: every end slope lies in the
+box `[0, 3Δ]` of its piece, `pchip_slopes_in_box`, hence the derivative of the cubic keeps the sign of the secant.) -/
+theorem pchip_monotone (xs ys : List ℝ) (h : xs.Pairwise (· < ·)) (hn : 2 ≤ xs.length) :
+    ((∀ i, i + 1 < xs.length → ys.getD i 0 ≤ ys.getD (i + 1) 0) →
+        MonotoneOn (spline xs ys (pchipSlopes xs ys) 0) (Set.Icc (xs.getD 0 0) (xs.getD (xs.length - 1) 0))) ∧
+      ((∀ i, i + 1 < xs.length → ys.getD (i + 1) 0 ≤ ys.getD i 0) →
+        AntitoneOn (spline xs ys (pchipSlopes xs ys) 0) (Set.Icc (xs.getD 0 0) (xs.getD (xs.length - 1) 0))) :=
+  ⟨fun hy => monotoneOn_nodes _ xs h hn fun i hi => (pchip_piece_mono xs ys h i hi).1 (hy i (by omega)),
+    fun hy => antitoneOn_nodes _ xs h hn fun i hi => (pchip_piece_mono xs ys h i hi).2 (hy i (by omega))⟩
+
+/-- **(d) power laws, kernel level**: `pchip` and `akima` on ≥ 2 positive strictly increasing node volumes reproduce
+`ω = ω₀ (V/V₀)^(−γ)` exactly on the whole grid: `(ω, γ, V∂γ/∂V) = (ω₀ (V/V₀)^(−γ), γ, 0)` -/
+theorem power_law_exact_ppoly (nodeVols vArray : List ℝ) (w0 V0 g : ℝ) (hw : 0 < w0) (hV0 : 0 < V0)
+    (hnodes : ∀ V ∈ nodeVols, 0 < V) (hgrid : ∀ V ∈ vArray, 0 < V) (hinc : nodeVols.Pairwise (· < ·)) (h2 : 2 ≤ nodeVols.length) :
+    finishMode pchipInterpolant nodeVols (nodeVols.map fun V => w0 * (V / V0) ^ (-g)) vArray
+        = .ok (vArray.map fun V => (w0 * (V / V0) ^ (-g), g, 0)) ∧
+      finishMode akimaInterpolant nodeVols (nodeVols.map fun V => w0 * (V / V0) ^ (-g)) vArray
+        = .ok (vArray.map fun V => (w0 * (V / V0) ^ (-g), g, 0)) := by
+  have hlog : (nodeVols.map Real.log).Pairwise (· < ·) := by
+    rw [List.pairwise_map]
+    exact hinc.imp_of_mem fun {a b} ha _ hab => Real.log_lt_log (hnodes a ha) hab
+  have key : ∀ I : Interpolant ℝ, (∀ a b : ℝ, I (nodeVols.map Real.log) ((nodeVols.map Real.log).map fun x => a * x + b)
+        (vArray.map Real.log) = .ok ((vArray.map Real.log).map fun q => (a * q + b, a, 0))) →
+      finishMode I nodeVols (nodeVols.map fun V => w0 * (V / V0) ^ (-g)) vArray
+        = .ok (vArray.map fun V => (w0 * (V / V0) ^ (-g), g, 0)) := by
+    intro I hI
+    refine power_law_exact I nodeVols vArray w0 V0 g hw hV0 hnodes hgrid fun c hc => ?_
+    obtain ⟨a, b, rfl⟩ : ∃ a b, c = [a, b] := by
+      match c, hc with
+      | [a, b], _ => exact ⟨a, b, rfl⟩
+    have e : (fun x : ℝ => polyval [a, b] x) = fun x => a * x + b := by funext x; simp [polyval]
+    have := hI a b
+    rw [show (polyval [a, b]) = fun x => a * x + b from e]
+    rw [this]
+    simp [polyval, polyder, polyderN]
+  have hn : 2 ≤ (nodeVols.map Real.log).length := by simpa using h2
+  exact ⟨key _ fun a b => (ppoly_affine_exact _ _ hlog hn a b).1, key _ fun a b => (ppoly_affine_exact _ _ hlog hn a b).2⟩
+
+/-- **(d) power laws, mode level**: `interpolate_mode_ppoly` with `pchip` / `akima`, any order ≥ 1 that keeps ≥ 2 of the positive strictly
+decreasing sampled volumes: `γ` is the constant exponent and `V∂γ/∂V = 0` at every grid volume, inside and outside the sampled range -/
+theorem power_law_exact_ppoly_mode (m : Method) (hm : m = .pchip ∨ m = .akima) (order : ℕ) (ho : order ≠ 0) (lib : Interpolant ℝ)
+    (vols vArray : List ℝ) (w0 V0 g : ℝ) (hw : 0 < w0) (hV0 : 0 < V0) (hpos : ∀ V ∈ vols, 0 < V) (hgrid : ∀ V ∈ vArray, 0 < V)
+    (hdec : vols.Pairwise (· > ·)) (h2 : 2 ≤ (thin order vols).length) :
+    interpolateMode m order (kernelFull m order lib) vols (vols.map fun V => w0 * (V / V0) ^ (-g)) vArray
+      = .ok (vArray.map fun V => (w0 * (V / V0) ^ (-g), g, 0)) := by
+  set nv := (thin order vols).reverse with hnv
+  have hposn : ∀ V ∈ nv, 0 < V := fun V hV => hpos V (thin_subset order vols V (List.mem_reverse.mp hV))
+  have hinc : nv.Pairwise (· < ·) := by
+    rw [hnv, List.pairwise_reverse]
+    exact thin_pairwise _ order vols hdec
+  have hk := power_law_exact_ppoly nv vArray w0 V0 g hw hV0 hposn hgrid hinc (by simpa [hnv] using h2)
+  have hthin : (thin order (vols.map fun V => w0 * (V / V0) ^ (-g))).reverse = nv.map fun V => w0 * (V / V0) ^ (-g) := by
+    rw [thin_map, hnv, List.map_reverse]
+  rcases hm with rfl | rfl
+  · simpa [interpolateMode, modeNodes, kernelFull, ho, bind, Except.bind, hthin, ← hnv] using hk.1
+  · simpa [interpolateMode, modeNodes, kernelFull, ho, bind, Except.bind, hthin, ← hnv] using hk.2
+
+/-- the hypotheses of `ppoly_mode_consistent` / `power_law_exact_ppoly_mode` are satisfiable: five positive strictly decreasing volumes,
+order 3 keeps three of them (interval 2) -/
+example : (∀ V ∈ ([5, 4, 3, 2, 1] : List ℝ), 0 < V) ∧ ([5, 4, 3, 2, 1] : List ℝ).Pairwise (· > ·) ∧
+    (thin 3 ([5, 4, 3, 2, 1] : List ℝ)).length = 3 := by
+  refine ⟨by norm_num, by norm_num, by decide⟩
+
+/-- monotone data with a flat piece (values 0,1,1,5 on nodes 0,1,2,4): slopes 3/2, 0, 0, 10/3 — each inside the box `[0, 3Δ]` of both
+adjacent pieces (Δ = 1, 0, 2), the instance of `pchip_slopes_in_box` behind `pchip_monotone` -/
+example : pchipSlopes ([0, 1, 2, 4] : List ℚ) [0, 1, 1, 5] = [3 / 2, 0, 0, 10 / 3] ∧
+    (List.range 3).map (mAt ([0, 1, 2, 4] : List ℚ) [0, 1, 1, 5]) = [1, 0, 2] := by decide +kernel
+
+end PPolyReal
+
 /-! #### the double loop: Γ-acoustic zeros, modes not mixed -/
 
 section Loop
@@ -574,6 +835,39 @@ theorem mode_glue_is_source {α : Type} [Neg α] [Zero α] [ExpLog α] (m : Meth
       modeNodes m order vols freqs = .ok (nodesBySpec sp order vols, nodesBySpec sp order freqs) := by
   refine ⟨?_, finish_is_pattern I nv nf va, mode_nodes_is_source m f h order ho vols freqs⟩
   cases m <;> simp [Method.pyFunction] at h <;> subst h <;> decide
+
+/-- **model-is-source for the ppoly branch.**  On this run the translator (`tools/gens/ppoly.py`) found in `interpolate_mode_ppoly`:
+(1) the dispatch `pchip → PchipInterpolator`, `akima → Akima1DInterpolator`, `hermite → CubicHermiteSpline` — the classes `kernelFull` /
+`interpolateMode` model for these methods; (2) three evaluation calls `nu = 0, 1, 2`, each with `extrapolate=True` — exactly what
+`PPoly.sample` computes (whatever the class default); (3) a constructor call with the two positional arguments
+`flip(log(mode_volumes))`, `flip(log(mode_freqs))` and no keyword, evaluated at `log(v_array)` — exactly what the model's kernel receives.
+Dropping `extrapolate=True`, swapping `nu`, another class, an extra keyword (`method="makima"`), evaluating at `v_array`: each changes
+`Generated/PPolySpec.lean` and this theorem stops checking. -/
+theorem ppoly_glue_is_source {α : Type} [Add α] [Sub α] [Mul α] [Div α] [Neg α] [Zero α] [One α] [NatCast α] [LT α] [DecidableLT α]
+    [LE α] [DecidableLE α] [ExpLog α] (I : Interpolant α) (tv tf va xs ys ds : List α) (q : α) (dflt : Bool) :
+    (Generated.ppolyDispatch.map (·.1) = ["pchip", "akima", "hermite"] ∧
+      ∀ e ∈ Generated.ppolyDispatch, Cij.PPoly.scipyClass (Method.ofString e.1) = some e.2) ∧
+    Cij.PPoly.sample xs ys ds q
+      = (Cij.PPoly.sampleBySpec Generated.ppolyEvalCalls dflt xs ys ds q).bind Cij.PPoly.tripleOfList ∧
+    (Generated.ppolyCtorKeywords = [] ∧ Generated.ppolyEvalAbscissa = "numpy.log(v_array)" ∧
+      ∃ a0 a1 x y, Generated.ppolyCtorArgs = [a0, a1] ∧ Cij.PPoly.ctorArgBySpec a0 tv tf = some x ∧
+        Cij.PPoly.ctorArgBySpec a1 tv tf = some y ∧
+        finishMode I tv.reverse tf.reverse va = (do
+          let r ← I x y (va.map ExpLog.log)
+          pure (r.map fun (s, s1, s2) => (ExpLog.exp s, -s1, -s2)))) :=
+  ⟨Cij.PPoly.dispatch_is_source, Cij.PPoly.sample_is_source dflt xs ys ds q, Cij.PPoly.ctor_is_source I tv tf va⟩
+
+/-- the two numeric constants of the slope rules are the literals of the INSTALLED scipy's `_cubic.py` (`break_mult = 1.e-9`,
+`_edge_case`'s `3.`), whose four functions the model mirrors are pinned on their normalised ast by the same translator run -/
+theorem ppoly_constants_are_scipy {K : Type} [Field K] :
+    (Cij.PPoly.breakMult : K) = (Generated.akimaBreakMult.1 : K) / (Generated.akimaBreakMult.2 : K) ∧
+      (Cij.PPoly.three : K) = (Generated.pchipEdgeFactor : K) ∧ Generated.scipyCubicPinned = true :=
+  ⟨Cij.PPoly.breakMult_is_source, Cij.PPoly.edgeFactor_is_source, rfl⟩
+
+/-- non-vacuity: with `extrapolate=False` (what dropping the keyword would mean for Akima) a query outside the nodes has no value,
+with `True` it is the first piece's cubic -/
+example : Cij.PPoly.evalBySpec false ([0, 1, 3] : List ℚ) [0, 2, 3] [1, 1, 1] 0 (-1) = none ∧
+    Cij.PPoly.evalBySpec true ([0, 1, 3] : List ℚ) [0, 2, 3] [1, 1, 1] 0 (-1) = some 4 := by decide +kernel
 
 /-- all five source functions are covered, and all return the canonical pattern -/
 theorem mode_return_pattern_all : Generated.modeReturnPattern.length = 5 ∧
